@@ -15,6 +15,8 @@
                     (an empty attribute list is a legal argument and means the empty product)
   exact-size        the number of cells is the exact (arbitrary-precision) product of the attribute sizes: reduce/math.prod over
                     Python ints, not a fixed-width numpy product (domains beyond 2**63 cells are ordinary here)
+  (histogram also)  any other value datavector returns is, under an established one-attribute domain, numpy.bincount of the column with
+                    self.weights and minlength = the attribute's size; canonical from sorted positions only when the positions form a set
 Not decided: cell-level histogram counts (numpy.histogramdd trusted).
 """
 import ast
